@@ -31,8 +31,14 @@ fn gen_run(check: &'static dyn Check, seed: u64, i: u64, tier: Tier) -> Run {
 }
 
 fn exec_isolated(check: &'static dyn Check, run: &Run) -> Outcome {
+    try_exec_isolated(check, run).expect("run thread must not unwind (harness panic)")
+}
+
+/// None if the simulator itself panicked while executing the run (e.g. a shrunk run that the
+/// executor cannot interpret): the minimiser rejects such candidates
+fn try_exec_isolated(check: &'static dyn Check, run: &Run) -> Option<Outcome> {
     let run = run.clone();
-    exec::in_fresh_thread(move || {
+    exec::try_in_fresh_thread(move || {
         let mut o = check.exec(&run);
         if exec::take_counter_exhausted() && run.get("stride_max") > 0 {
             // the K2 stride seam used up the u32 slot numbers: an artefact of the fault, no verdict
@@ -48,6 +54,7 @@ fn exec_isolated(check: &'static dyn Check, run: &Run) -> Outcome {
         }
         o
     })
+    .ok()
 }
 
 #[derive(Clone, Debug)]
@@ -120,7 +127,7 @@ fn minimise(check: &'static dyn Check, run: &Run, class: &(String, String, Strin
                 break 'outer;
             }
             execs += 1;
-            let o = exec_isolated(check, &cand);
+            let Some(o) = try_exec_isolated(check, &cand) else { continue };
             let same = o.violations.iter().any(|v| &v.class() == class && match_known(v, known).is_none());
             if same {
                 cur = cand;
